@@ -1,49 +1,162 @@
 import ParsecVerif.Proofs.CompoundInv
-/-! The global invariant of the compound machine and its preservation by every transition. -/
+import ParsecVerif.Proofs.CompoundSelf
+/-! The global invariant of the compound machine: context invariants, the chain of members of every
+    compound (`CI`), the descriptor of every compound object (`CS`); preservation by context moves. -/
 namespace ParsecVerif.Compound
 open ParsecVerif.Context
+
+/-- the compound object: no task, pending count = the machine's `pending`, armed and added while some
+    member remains, in or past its (nested) callback once all members completed, and its callback stamp
+    is later than the callback stamp of the last member -/
+structure CS (l : List Tp) (c : Comp) : Prop where
+  ne : 1 ≤ c.members.length
+  ex : ∃ ts : Tp, l[c.self]? = some ts ∧ ts.total = 0 ∧ ts.early = false ∧ SelfSt ts.st ∧ (ts.pend : Int) = c.pending ∧
+      (0 < c.pending → ts.st = .added ∧ ts.ready = true) ∧
+      (c.completed = c.members.length → ts.st = .inCbN ∨ ts.st = .done) ∧
+      (c.completed < c.members.length → ts.cbAt = 0 ∧ ts.cbs = 0) ∧
+      (ts.cbAt ≠ 0 → ∀ (ml : Nat) (tl : Tp), c.members[c.members.length - 1]? = some ml → l[ml]? = some tl →
+          tl.cbAt ≠ 0 ∧ tl.cbAt < ts.cbAt)
 
 structure GI (cs : CSt) : Prop where
   inv : Inv cs.base
   sinv : SInv cs.base
   nodup : (allMembers cs.comps).Nodup
+  snodup : (allSelfs cs.comps).Nodup
+  sdisj : ∀ c ∈ cs.comps, c.self ∉ allMembers cs.comps
   ci : ∀ (i : Nat) (c : Comp), cs.comps[i]? = some c → CI cs.base.tps c
+  cself : ∀ (i : Nat) (c : Comp), cs.comps[i]? = some c → CS cs.base.tps c
 
 theorem not_mem_of_contains {l : List Nat} {q : Nat} (h : (!l.contains q) = true) : q ∉ l := by
   simpa using h
 
+theorem mem_allSelfs {comps : List Comp} {i : Nat} {c : Comp} (hc : comps[i]? = some c) : c.self ∈ allSelfs comps :=
+  List.mem_map.2 ⟨c, List.mem_of_getElem? hc, rfl⟩
+
+/-- the object keeps satisfying `CS` when its descriptor moves by `SelfRel` and the last member keeps its callback stamp -/
+theorem cs_frame {l l' : List Tp} {c : Comp} (h : CS l c)
+    (hself : ∀ ts : Tp, l[c.self]? = some ts → ∃ ts' : Tp, l'[c.self]? = some ts' ∧ SelfRel ts ts')
+    (hmem : ∀ m ∈ c.members, ∀ tp' : Tp, l'[m]? = some tp' → ∃ tp : Tp, l[m]? = some tp ∧ tp'.cbAt = tp.cbAt) : CS l' c := by
+  obtain ⟨ts, hts, h0, he, hss, hp, h1, h2, h3, h4⟩ := h.ex
+  obtain ⟨ts', hts', r0, re, rp, rc, rcb, rss, rst⟩ := hself ts hts
+  refine ⟨h.ne, ts', hts', r0, re, rss, by rw [rp]; exact hp, ?_, ?_, ?_, ?_⟩
+  · intro hpos
+    obtain ⟨a1, a2⟩ := h1 hpos
+    rcases rst with ⟨e1, e2⟩ | ⟨e1, _⟩ | ⟨e1, _⟩ | ⟨e1, _⟩
+    · exact ⟨e1.trans a1, by rcases e2 with e | e; exact e.trans a2; exact e⟩
+    · rw [a1] at e1; cases e1
+    · rw [a1] at e1; cases e1
+    · rw [a1] at e1; cases e1
+  · intro hc
+    rcases h2 hc with a | a
+    · rcases rst with ⟨e1, _⟩ | ⟨e1, _⟩ | ⟨e1, _⟩ | ⟨_, e2⟩
+      · exact Or.inl (e1.trans a)
+      · rw [a] at e1; cases e1
+      · rw [a] at e1; cases e1
+      · exact Or.inr e2
+    · rcases rst with ⟨e1, _⟩ | ⟨e1, _⟩ | ⟨e1, _⟩ | ⟨e1, _⟩
+      · exact Or.inr (e1.trans a)
+      · rw [a] at e1; cases e1
+      · rw [a] at e1; cases e1
+      · rw [a] at e1; cases e1
+  · intro hc; rw [rc, rcb]; exact h3 hc
+  · intro hcb ml tl hml htl
+    rw [rc] at hcb ⊢
+    obtain ⟨x, hx, e⟩ := hmem ml (List.mem_of_getElem? hml) tl htl
+    rw [e]; exact h4 hcb ml x hml hx
+
+/-- under a context move allowed by the compound machine every member keeps its callback stamp -/
+theorem member_cbAt_chg {s : St} {tr : Tr} {p : Nat} {tp x : Tp} {c : Comp} (hci : CI s.tps c) (htp : s.tps[p]? = some tp)
+    (hpm : p ∈ c.members) (hnd : ∀ t, tr ≠ .detect t p) (hna : ∀ t, tr ≠ .actionDone t p) (chg : Chg s tr p tp x) :
+    x.cbAt = tp.cbAt := by
+  cases chg with
+  | same h1 h2 h3 => exact h3
+  | call h0 h1 h2 h3 h4 => exact h4
+  | inc h1 h2 h3 h4 => exact h4
+  | det h0 h1 h2 h3 h4 => obtain ⟨t, rfl⟩ := h0; exact absurd rfl (hnd t)
+  | dec h1 h2 h3 h4 => exact h4
+  | early he =>
+    obtain ⟨k, hk, hget⟩ := List.getElem_of_mem hpm
+    obtain ⟨y, hy, hye, _⟩ := hci.mem k p (by rw [List.getElem?_eq_getElem hk, hget])
+    rw [htp] at hy; cases hy
+    rw [he] at hye; cases hye
+  | ndet h0 h1 h2 h3 h4 => obtain ⟨t, rfl⟩ := h0; exact absurd rfl (hna t)
+  | ndec h1 h2 h3 h4 => exact h4
+
 theorem gi_ctx {cs : CSt} {tr : Tr} {s' : St} (h : GI cs) (ha : ctxAllowed cs tr = true) (hs : step? cs.base tr = some s') :
     GI { cs with base := s' } := by
-  refine ⟨inv_step h.inv hs, sinv_step h.inv h.sinv hs, h.nodup, ?_⟩
-  intro i c hc
-  have hci := h.ci i c hc
-  rcases step?_chg h.inv h.sinv hs with e | ⟨p, tp, x, htp, hset, hearly, chg⟩
-  · show CI s'.tps c
-    rw [e]; exact hci
-  · show CI s'.tps c
-    have hmemall : p ∈ c.members → p ∈ allMembers cs.comps := fun hm => mem_allMembers hc hm
-    cases chg with
-    | same h1 h2 h3 => exact ci_set_frame hci htp hset (Or.inr ⟨Or.inl h1, h2, h3, hearly⟩)
-    | call h0 h1 h2 h3 h4 =>
-      rcases h0 with ⟨t, rfl⟩ | ⟨t, rfl⟩
-      · have := not_mem_of_contains (by simpa [ctxAllowed] using ha)
+  have hnsr : ∀ t n, tr ≠ .startupReady t n := by intro t n e; subst e; simp [ctxAllowed] at ha
+  have hnad : ∀ t p, tr ≠ .actionDone t p := by intro t p e; subst e; simp [ctxAllowed] at ha
+  have hnsa : ∀ t p, tr ≠ .startupAdd t p := by intro t p e; subst e; simp [ctxAllowed] at ha
+  refine ⟨inv_step h.inv hs, sinv_step h.inv h.sinv hs, h.nodup, h.snodup, h.sdisj, ?_, ?_⟩
+  · intro i c hc
+    have hci := h.ci i c hc
+    rcases step?_chg h.inv h.sinv hs with e | ⟨p, tp, x, htp, hset, hearly, chg⟩
+    · show CI s'.tps c
+      rw [e]; exact hci
+    · show CI s'.tps c
+      have hmemall : p ∈ c.members → p ∈ allMembers cs.comps := fun hm => mem_allMembers hc hm
+      cases chg with
+      | same h1 h2 h3 => exact ci_set_frame hci htp hset (Or.inr ⟨Or.inl h1, h2, h3, hearly⟩)
+      | call h0 h1 h2 h3 h4 =>
+        rcases h0 with ⟨t, rfl⟩ | ⟨t, rfl⟩
+        · have := not_mem_of_contains (by simpa [ctxAllowed] using ha)
+          exact ci_set_frame hci htp hset (Or.inl (fun hm => this (hmemall hm)))
+        · simp [ctxAllowed] at ha
+      | inc h1 h2 h3 h4 =>
+        by_cases hm : p ∈ c.members
+        · exact ci_set_inc hci h.sinv.tpok (nodup_members h.nodup hc) htp hset hm h1 h2 h3 h4 hearly
+        · exact ci_set_frame hci htp hset (Or.inl hm)
+      | det h0 h1 h2 h3 h4 =>
+        obtain ⟨t, rfl⟩ := h0
+        have := not_mem_of_contains (by have := ha; simp [ctxAllowed] at this; simpa using this.1)
         exact ci_set_frame hci htp hset (Or.inl (fun hm => this (hmemall hm)))
-      · simp [ctxAllowed] at ha
-    | inc h1 h2 h3 h4 =>
-      by_cases hm : p ∈ c.members
-      · exact ci_set_inc hci h.sinv.tpok (nodup_members h.nodup hc) htp hset hm h1 h2 h3 h4 hearly
-      · exact ci_set_frame hci htp hset (Or.inl hm)
-    | det h0 h1 h2 h3 h4 =>
-      obtain ⟨t, rfl⟩ := h0
-      have := not_mem_of_contains (by simpa [ctxAllowed] using ha)
-      exact ci_set_frame hci htp hset (Or.inl (fun hm => this (hmemall hm)))
-    | dec h1 h2 h3 h4 => exact ci_set_frame hci htp hset (Or.inr ⟨Or.inr ⟨h1, h2⟩, h3, h4, hearly⟩)
-    | early he =>
-      by_cases hm : p ∈ c.members
-      · obtain ⟨k, hk, hget⟩ := List.getElem_of_mem hm
-        obtain ⟨y, hy, hye, _⟩ := hci.mem k p (by rw [List.getElem?_eq_getElem hk, hget])
-        rw [htp] at hy; cases hy
-        rw [he] at hye; cases hye
-      · exact ci_set_frame hci htp hset (Or.inl hm)
+      | dec h1 h2 h3 h4 => exact ci_set_frame hci htp hset (Or.inr ⟨Or.inr ⟨h1, h2⟩, h3, h4, hearly⟩)
+      | early he =>
+        by_cases hm : p ∈ c.members
+        · obtain ⟨k, hk, hget⟩ := List.getElem_of_mem hm
+          obtain ⟨y, hy, hye, _⟩ := hci.mem k p (by rw [List.getElem?_eq_getElem hk, hget])
+          rw [htp] at hy; cases hy
+          rw [he] at hye; cases hye
+        · exact ci_set_frame hci htp hset (Or.inl hm)
+      | ndet h0 h1 h2 h3 h4 => obtain ⟨t, rfl⟩ := h0; exact absurd rfl (hnad t p)
+      | ndec h1 h2 h3 h4 =>
+        by_cases hm : p ∈ c.members
+        · obtain ⟨k, hk, hget⟩ := List.getElem_of_mem hm
+          obtain ⟨y, hy, _, b2, b3, b4⟩ := hci.mem k p (by rw [List.getElem?_eq_getElem hk, hget])
+          rw [htp] at hy; cases hy
+          rcases Nat.lt_trichotomy k c.completed with hlt | heq | hgt
+          · rcases b2 hlt with e | e <;> rw [h1] at e <;> cases e
+          · rcases (b4 heq).1 with e | e | e <;> rw [h1] at e <;> cases e
+          · have := b3 hgt; rw [h1] at this; cases this
+        · exact ci_set_frame hci htp hset (Or.inl hm)
+  · intro i c hc
+    have hcs := h.cself i c hc
+    have hci := h.ci i c hc
+    show CS s'.tps c
+    obtain ⟨ts, hts, h0, he, hss, _⟩ := hcs.ex
+    have hself_in : c.self ∈ allSelfs cs.comps := mem_allSelfs hc
+    apply cs_frame hcs
+    · intro ts0 hts0
+      rw [hts] at hts0; cases hts0
+      refine step?_self h.inv hs hts h0 he hss ?_ ?_ hnsr hnad hnsa
+      · intro t e; subst e
+        have := ha; simp [ctxAllowed] at this
+        exact this.2 hself_in
+      · intro t e; subst e
+        have := ha; simp [ctxAllowed] at this
+        exact this hself_in
+    · intro m hm tp' htp'
+      rcases step?_chg h.inv h.sinv hs with e | ⟨p, tp, x, htp, hset, hearly, chg⟩
+      · rw [e] at htp'; exact ⟨tp', htp', rfl⟩
+      · rw [hset, get_set_tp _ _ _ _ _ htp] at htp'
+        by_cases hmp : m = p
+        · rw [if_pos hmp] at htp'; cases htp'
+          subst hmp
+          have hmall := mem_allMembers hc hm
+          refine ⟨tp, htp, member_cbAt_chg hci htp hm ?_ (fun t => hnad t m) chg⟩
+          intro t e; subst e
+          have := ha; simp [ctxAllowed] at this
+          exact this.1 hmall
+        · rw [if_neg hmp] at htp'; exact ⟨tp', htp', rfl⟩
 
 end ParsecVerif.Compound
